@@ -29,6 +29,7 @@
 //     (longest-free first; addresses freed by the same write are ties);
 //  5. a ReleaseByHandle(h) that returns nil has freed every address that carried h and no other;
 //     one that fails has freed nothing that did not carry h.
+//
 // Also: the structural block check and the "allocation only disappears when its release was asked
 // for" check of C19 run on every write.
 //
